@@ -199,15 +199,8 @@ Definition crlf_at (l : list Z) (i : nat) : Prop :=
 
 Definition ends_crlf (l : list Z) : Prop := exists p, l = p ++ [13; 10].
 
-(* no more input: nothing buffered and either the budget is used up or the
-   stream is at end of file *)
+(* nothing buffered and the declared length used up *)
 Definition exhausted (s : st) : Prop := buf s = [] /\ todo s = 0.
-
-(* hypotheses of the liveness theorem: the stream holds the declared bytes
-   and no read returns nothing while bytes are outstanding *)
-Definition live (s : st) : Prop :=
-  0 <= todo s /\ todo s <= len (s_data (src s)) /\
-  Forall (fun b => 0 < b) (s_shorts (src s)).
 
 (* --------------------------------------------------------- correspondence *)
 Definition enc_log (q : log) : V :=
